@@ -48,10 +48,18 @@ func c16Property(rt *rapid.T, ev *evid.Rec) {
 			if identitySig(o) == identitySig(d) {
 				// columns of the same name must agree in type across integrations of one table
 				clash := false
-				for _, c1 := range d.Columns {
-					for _, c2 := range o.Columns {
-						if c1.Name == c2.Name && c1.Type != c2.Type {
-							clash = true
+				for _, other := range decls { // every integration already on that table
+					if other.Table != o.Table {
+						continue
+					}
+					if identitySig(other) != identitySig(d) {
+						clash = true
+					}
+					for _, c1 := range d.Columns {
+						for _, c2 := range other.Columns {
+							if c1.Name == c2.Name && c1.Type != c2.Type {
+								clash = true
+							}
 						}
 					}
 				}
